@@ -76,6 +76,20 @@ type Pair[A any, B any] interface {
 	Swap() Pair[B, A]
 }
 
+// literals that embed named types: the embedded type's own methods and fields
+// mention packages the literal's text does not
+type Literals interface {
+	Flush(c interface {
+		context.Context
+		Sync() error
+	}) error
+	Wrap(s struct {
+		io.Reader
+		N int
+	}) (out struct{ http.Header })
+	Each(f func(interface{ alpha.I }) error)
+}
+
 // results only, many results, named results
 type Results interface {
 	Two() (int, error)
@@ -87,9 +101,9 @@ type Results interface {
 
 func CorpusRaw(seed int64, tier string) []*Case {
 	src := &SrcPkg{Name: "rawsrc", Pkgs: []Pkg{dep("alpha", "x", "alpha")}, Raw: map[string]string{"raw.go": rawMain}}
-	ifaces := []string{"Base", "Embeds", "IntStore", "KeyStore", "ReaderAlias", "DepAlias", "Store", "Cache", "UserStore", "NamedStore", "Pair", "Results"}
+	ifaces := []string{"Base", "Embeds", "IntStore", "KeyStore", "ReaderAlias", "DepAlias", "Store", "Cache", "UserStore", "NamedStore", "Pair", "Results", "Literals"}
 	var cases []*Case
-	judge := []string{"C01", "C02", "C08", "C09", "C10", "C11", "C12", "C14", "C19", "C20"}
+	judge := []string{"C01", "C02", "C08", "C09", "C10", "C11", "C12", "C14", "C16", "C19", "C20"}
 	for i, n := range ifaces {
 		k := 4
 		if tier == "thorough" {
@@ -100,7 +114,7 @@ func CorpusRaw(seed int64, tier string) []*Case {
 				continue // known finding KF-06 whenever source types are mentioned; kept out of the hand-written corpus
 			}
 			cfg.Args = []string{n}
-			cases = append(cases, &Case{Origin: "raw:" + n, Src: src, Cfg: cfg, Judge: judge, NoPredict: true, Repeat: 2})
+			cases = append(cases, &Case{Origin: "raw:" + n, Src: src, Cfg: cfg, Judge: judge, NoPredict: true, Repeat: 2, RunFmts: true})
 		}
 	}
 	// several at once: same-named methods from different literals, generic next to non-generic
